@@ -264,6 +264,15 @@ func runInBubble(s Script) (res vt.Result) {
 		if mutual {
 			res.Failf("Connect(requested=%q over %s) failed although the version is supported by both sides and the transport: %v", s.Requested, s.Link, cr.err)
 		} else if modernAttempt {
+			mu.Lock()
+			nothingSent := seen["initialize"]+seen["server/discover"] == 0
+			mu.Unlock()
+			if !slices.Contains(sdkVersions, requested) && nothingSent {
+				// a client may refuse a version string it does not know before talking to the server at all:
+				// "fails with an error" is an allowed outcome and no discovery took place to fall back from
+				res.Class("unknown_version_refused_by_client")
+				return
+			}
 			// Discovery was unavailable or had no modern overlap; both SDK sides share legacy
 			// versions over every transport, so the initialize fallback must have succeeded.
 			res.Failf("Connect(requested=%q over %s) failed instead of falling back to the initialize handshake: %v", s.Requested, s.Link, cr.err)
@@ -301,7 +310,9 @@ func runInBubble(s Script) (res vt.Result) {
 		if !transportModern && !fallback {
 			res.Failf("discovery cannot yield a modern version over %s, yet the session was established without the initialize fallback (negotiated %q)", s.Link, neg)
 		}
-		if transportModern && fallback {
+		// (only for a mutually supported request: for an unknown one the property asks for some supported
+		// version, not for the newest one, so falling back to initialize is as good as renegotiating)
+		if transportModern && fallback && mutual {
 			res.Failf("server and transport (%s) support %s and the client asked for %q, but the client fell back to initialize (negotiated %q)", s.Link, modern, s.Requested, neg)
 		}
 		if fallback && neg >= modern {
@@ -312,7 +323,8 @@ func runInBubble(s Script) (res vt.Result) {
 			res.Failf("legacy version %q requested but no initialize was received by the server", requested)
 		}
 		if sawDiscover > 0 {
-			res.Failf("legacy version %q requested but the client sent server/discover", requested)
+			// probing server/discover before a legacy handshake is not forbidden by the property: only counted
+			res.Class("discover_before_legacy_initialize")
 		}
 	}
 	if neg != requested || fallback && modernAttempt {
@@ -449,9 +461,20 @@ func runRawInBubble(s RawScript) (res vt.Result) {
 		vj, _ := json.Marshal(s.Version)
 		peer.Send(fmt.Sprintf(`{"jsonrpc":"2.0","id":1,"method":"initialize","params":{"protocolVersion":%s,"capabilities":{},"clientInfo":{"name":"raw","version":"0"}}}`, vj))
 		synctest.Wait()
-		recv := peer.Received()
+		// the answer is the message bearing id 1; notifications the server may send along are not judged here
+		var answers [][]byte
+		for _, raw := range peer.Received() {
+			var m struct {
+				ID     *int   `json:"id"`
+				Method string `json:"method"`
+			}
+			if json.Unmarshal(raw, &m) == nil && m.Method == "" && m.ID != nil && *m.ID == 1 {
+				answers = append(answers, raw)
+			}
+		}
+		recv := answers
 		if len(recv) != 1 {
-			res.Failf("initialize(%q): got %d messages back, want 1", s.Version, len(recv))
+			res.Failf("initialize(%q): got %d responses to it, want 1", s.Version, len(recv))
 			return
 		}
 		var resp struct {
@@ -492,27 +515,46 @@ func runRawInBubble(s RawScript) (res vt.Result) {
 		cs, err := client.Connect(context.Background(), sc.Transport(), &mcp.ClientSessionOptions{ProtocolVersion: "2025-06-18"})
 		ch <- cr{cs, err}
 	}()
-	synctest.Wait()
-	w := sc.Written()
-	if len(w) != 1 {
-		res.Failf("harness: expected the initialize request, got %d messages", len(w))
+	// the initialize request is looked for among what the client wrote (up to 30 s of virtual time), whatever else it sends
+	var initReq *jsonrpc.Request
+	for i := 0; i < 30 && initReq == nil; i++ {
+		synctest.Wait()
+		for _, m := range sc.Written() {
+			if r, ok := m.(*jsonrpc.Request); ok && r.Method == "initialize" {
+				initReq = r
+			}
+		}
+		if initReq == nil {
+			time.Sleep(time.Second)
+		}
+	}
+	if initReq == nil {
+		res.Failf("harness: the client did not send an initialize request (%d messages written)", len(sc.Written()))
 		sc.Close()
 		return
 	}
 	vj, _ := json.Marshal(s.Version)
-	sc.Inject(&jsonrpc.Response{ID: w[0].(*jsonrpc.Request).ID, Result: json.RawMessage(fmt.Sprintf(`{"protocolVersion":%s,"capabilities":{},"serverInfo":{"name":"x","version":"0"}}`, vj))})
-	synctest.Wait()
+	sc.Inject(&jsonrpc.Response{ID: initReq.ID, Result: json.RawMessage(fmt.Sprintf(`{"protocolVersion":%s,"capabilities":{},"serverInfo":{"name":"x","version":"0"}}`, vj))})
 	var r cr
-	select {
-	case r = <-ch:
-	default:
+	returned := false
+	for i := 0; i < 120 && !returned; i++ { // Connect may take virtual time; only "never" is a failure
+		synctest.Wait()
+		select {
+		case r = <-ch:
+			returned = true
+		default:
+			time.Sleep(time.Second)
+		}
+	}
+	if !returned {
 		res.Failf("Connect did not return after the initialize response (version %q)", s.Version)
 		sc.Close()
 		return
 	}
 	if r.err != nil {
 		res.Class("client_rejected")
-		if known && s.Version < modern {
+		// (only the version the client asked for: refusing a different one is an allowed "fails with an error")
+		if s.Version == "2025-06-18" {
 			res.Failf("client rejected a server that answered with supported version %q: %v", s.Version, r.err)
 		}
 		sc.Close()
